@@ -46,7 +46,7 @@ const (
 )
 
 // string-typed struct fields that hold an address / a denomination rather than free text
-var addrFieldNames = map[string]bool{"Owner": true, "Sender": true, "Receiver": true, "Authority": true, "Purchaser": true, "Signer": true, "Address": true}
+var addrFieldNames = map[string]bool{"Owner": true, "Sender": true, "Receiver": true, "Authority": true, "Purchaser": true, "Signer": true, "Address": true, "ReceiverAddr": true, "SenderAddr": true}
 var denomFieldNames = map[string]bool{"Denom": true}
 
 const (
@@ -369,7 +369,7 @@ func loadStructs(repo string) {
 								fty = tDenom
 							} else if ty == tStr && nm.Name == "EntSigners" {
 								fty = tSigners
-							} else if ty == gtype("L:"+string(tStr)) && nm.Name == "Whitelist" {
+							} else if ty == gtype("L:"+string(tStr)) && (nm.Name == "Whitelist" || nm.Name == "Addresses") {
 								fty = gtype("L:" + string(tAddrStr))
 							}
 							fs = append(fs, field{nm.Name, fty})
@@ -602,12 +602,14 @@ func rec2prims(rec string) map[string]fnSig {
 			"k.deleteWrkChainHash":                        {coq: "reg_DeleteRecord", stateful: true, impure: true, hasErr: true, dropCtx: true},
 			"k.GetLastWrkChainHeightInState":              u64("reg_LowestKeyInState", true),
 			"k.GetAllWrkChainBlockHashesForGenesisExport": {coq: "reg_GetRecordsForExport", reads: true, results: []gtype{"L:S:WrkChainBlockGenesisExport"}, dropCtx: true},
+			"k.GetWrkChainBlock":                          {coq: "reg_GetRecord", reads: true, results: []gtype{"S:WrkChainBlock", tBool}, dropCtx: true},
 		}
 	}
 	return map[string]fnSig{
 		"k.SetBeaconTimestamp":              {coq: "reg_SetRecord", stateful: true, impure: true, hasErr: true, dropCtx: true},
 		"k.deleteBeaconTimestamp":           {coq: "reg_DeleteRecord", stateful: true, impure: true, hasErr: true, dropCtx: true},
 		"k.GetAllBeaconTimestampsForExport": {coq: "reg_GetRecordsForExport", reads: true, results: []gtype{"L:S:BeaconTimestampGenesisExport"}, dropCtx: true},
+		"k.GetBeaconTimestampByID":          {coq: "reg_GetRecord", reads: true, results: []gtype{"S:BeaconTimestamp", tBool}, dropCtx: true},
 	}
 }
 
@@ -709,6 +711,7 @@ var modules = map[string]*moduleSpec{
 		want: []string{"GetTotalUnLockedUnd", "GetTotalUndSupply", "GetEnterpriseSupplyIncludingLockedUnd", "GetTotalSupplyWithLockedNundRemoved",
 			"GetSupplyOfWithLockedNundRemoved", "GetEnterpriseUserAccount",
 			"TotalLocked", "TotalUnlocked", "EnterpriseSupply", "TotalSupply", "TotalSupplyOverwrite", "SupplyOf", "SupplyOfOverwrite",
+			"GetLockedUndAmountForAccount", "GetSpentEFUNDAmountForAccount", "EnterpriseUndPurchaseOrder", "LockedUndByAddress", "TotalSpentEFUND", "SpentEFUNDByAddress", "Whitelist", "Whitelisted", "EnterpriseAccount",
 			"sendCoinsFromModuleToAccount", "incrementSpentEFUND", "incrementLockedUnd", "decrementLockedUnd", "MintCoinsAndLock", "UnlockCoinsForFees",
 			"ProcessAcceptedPurchaseOrders", "TallyPurchaseOrderDecisions",
 			"RaiseNewPurchaseOrder", "IsAuthorisedToDecide", "ProcessPurchaseOrderDecision", "ProcessWhitelistAction",
@@ -719,16 +722,17 @@ var modules = map[string]*moduleSpec{
 		prims: enterprisePrims, consts: map[string]constDef{"types.ModuleName": {"MOD_enterprise", tModName}, "k.authority": {"KEEPER_authority", tAddrStr}}, world: "eworld",
 		imports:  "lib.Prelude lib.GoSdk GeneratedEnterpriseTypes model.EnterpriseKeeperPrims",
 		typesMod: "GeneratedEnterpriseTypes", keeperMod: "GeneratedEnterpriseKeeper", listName: "enterprise_keeper_other_functions"},
-	"stream": {name: "stream", typeFuncs: [][2]string{{"params.go", "validateBaseValidatorFee"}, {"params.go", "Params.Validate"}, {"genesis.go", "NewGenesisState"}}, pbFiles: []string{"params.pb.go", "stream.pb.go", "tx.pb.go", "genesis.pb.go"}, goFiles: []string{"stream.go", "msg_server.go", "genesis.go"},
+	"stream": {name: "stream", typeFuncs: [][2]string{{"params.go", "validateBaseValidatorFee"}, {"params.go", "Params.Validate"}, {"genesis.go", "NewGenesisState"}}, pbFiles: []string{"params.pb.go", "stream.pb.go", "tx.pb.go", "genesis.pb.go", "query.pb.go"}, goFiles: []string{"stream.go", "msg_server.go", "genesis.go", "query_streams.go"},
 		want: []string{"addSeconds", "ClaimFromStream", "AddDeposit", "SetNewFlowRate", "CancelStreamBySenderReceiver",
-			"CreateNewStream", "CreateStream", "ClaimStream", "TopUpDeposit", "UpdateFlowRate", "CancelStream", "UpdateParams", "InitGenesis", "ExportGenesis"},
+			"CreateNewStream", "CreateStream", "ClaimStream", "TopUpDeposit", "UpdateFlowRate", "CancelStream", "UpdateParams", "InitGenesis", "ExportGenesis", "StreamByReceiverSender", "StreamReceiverSenderCurrentFlow"},
 		prims: streamPrims, consts: streamConsts, world: "kworld",
 		imports:  "lib.Prelude lib.GoSdk GeneratedFns GeneratedStreamTypes model.StreamKeeperPrims",
 		typesMod: "GeneratedStreamTypes", keeperMod: "GeneratedStreamKeeper", listName: "stream_keeper_other_functions",
 		msgTypes: []string{"MsgCreateStream", "MsgClaimStream", "MsgTopUpDeposit", "MsgUpdateFlowRate", "MsgCancelStream"}},
 	"wrkchain": {name: "wrkchain", pbFiles: []string{"wrkchain.pb.go", "tx.pb.go", "genesis.pb.go", "query.pb.go"}, rootFiles: []string{"genesis.go"}, typeFuncs: [][2]string{{"params.go", "validateFeeDenom"}, {"params.go", "validateFeeRegister"}, {"params.go", "validateFeeRecord"}, {"params.go", "validateFeePurchaseStorage"}, {"params.go", "validateDefaultStorageLimit"}, {"params.go", "validateMaxStorageLimit"}, {"params.go", "Params.Validate"}, {"genesis.go", "NewGenesisState"}}, goFiles: []string{"register.go", "record.go", "msg_server.go", "grpc_query.go"},
 		want: []string{"QuickCheckHeightIsNew", "GetMaxPurchasableSlots", "IncreaseInStateStorage", "RegisterNewWrkChain", "RecordNewWrkchainHashes",
-			"RegisterWrkChain", "RecordWrkChainBlock", "PurchaseWrkChainStateStorage", "UpdateParams", "InitGenesis", "ExportGenesis", "CheckIsWrkChainTx", "checkWrkchainFees"},
+			"RegisterWrkChain", "RecordWrkChainBlock", "PurchaseWrkChainStateStorage", "UpdateParams", "InitGenesis", "ExportGenesis", "CheckIsWrkChainTx", "checkWrkchainFees",
+			"WrkChain", "WrkChainBlock", "WrkChainStorage"},
 		anteFiles: []string{"ante/ante.go", "exported/exported.go"},
 		prims:     registryPrims("WrkChain", "WrkChainBlock"), consts: registryConsts, world: "rworld",
 		imports:  "lib.Prelude lib.GoSdk GeneratedWrkchainTypes model.WrkchainKeeperPrims",
@@ -736,7 +740,8 @@ var modules = map[string]*moduleSpec{
 		msgTypes: []string{"MsgRegisterWrkChain", "MsgRecordWrkChainBlock", "MsgPurchaseWrkChainStateStorage"}, callbacks: []string{"WrkChainsFiltered"}},
 	"beacon": {name: "beacon", pbFiles: []string{"beacon.pb.go", "tx.pb.go", "genesis.pb.go", "query.pb.go"}, rootFiles: []string{"genesis.go"}, typeFuncs: [][2]string{{"params.go", "validateFeeDenom"}, {"params.go", "validateFeeRegister"}, {"params.go", "validateFeeRecord"}, {"params.go", "validateFeePurchaseStorage"}, {"params.go", "validateDefaultStorageLimit"}, {"params.go", "validateMaxStorageLimit"}, {"params.go", "Params.Validate"}, {"genesis.go", "NewGenesisState"}}, goFiles: []string{"register.go", "record.go", "msg_server.go", "grpc_query.go"},
 		want: []string{"GetMaxPurchasableSlots", "IncreaseInStateStorage", "RegisterNewBeacon", "RecordNewBeaconTimestamp",
-			"RegisterBeacon", "RecordBeaconTimestamp", "PurchaseBeaconStateStorage", "UpdateParams", "InitGenesis", "ExportGenesis", "CheckIsBeaconTx", "checkBeaconFees"},
+			"RegisterBeacon", "RecordBeaconTimestamp", "PurchaseBeaconStateStorage", "UpdateParams", "InitGenesis", "ExportGenesis", "CheckIsBeaconTx", "checkBeaconFees",
+			"Beacon", "BeaconTimestamp", "BeaconStorage"},
 		anteFiles: []string{"ante/ante.go", "exported/exported.go"},
 		prims:     registryPrims("Beacon", "BeaconTimestamp"), consts: registryConsts, world: "rworld",
 		imports:  "lib.Prelude lib.GoSdk GeneratedBeaconTypes model.BeaconKeeperPrims",
@@ -2426,7 +2431,11 @@ func writeKeeper(repo, module, typesOut, keeperOut string) {
 			sb.WriteString("(* NOT FOUND " + want + " *)\n\n")
 			continue
 		}
-		def, errs, sig := translateKeeperFunc(fd, funcs, "")
+		dn := ""
+		if _, clash := structTable[want]; clash {
+			dn = want + "_handler" // a query handler named like the record it returns
+		}
+		def, errs, sig := translateKeeperFunc(fd, funcs, dn)
 		if len(errs) > 0 {
 			sb.WriteString("(* NOT TRANSLATED " + want + ": " + strings.Join(errs, "; ") + " *)\n\n")
 			continue
